@@ -72,3 +72,28 @@ package segread
 //@     invariant oPtr == 10 + 8*uint32(i) && i <= numValidRecs && numValidRecs <= numRecs && int(numRecs) <= len(bufToUse) && 8*int(numValidRecs) <= len(rawRec) - 10 && len(rawRec) >= 10
 //@     invariant forall(k, 0, int(i), bufToUse[k] == le64(rawRec[10+8*k:]) + lowTs)
 //@ end
+
+// C02 (a filter selects exactly the satisfying events, whatever the block
+// encoding): on a dictionary-encoded block the comparison is evaluated against
+// EVERY dictionary word (the engine's = is not byte equality: text compares
+// case-insensitively and numbers by value, so several distinct words can equal
+// one literal), and the records of every matching word are selected.
+//@ ghostdecl dictWords int
+//@ ghostdecl dictWordsChecked int
+//@ ghostdecl dictWordsMatched int
+//@ ghostdecl dictWordsSelected int
+//@ func ApplySearchToExpressionFilterDictCsg
+//@   props C02
+//@   ghostinit ghost(0, "dictWords") == 0 && ghost(0, "dictWordsChecked") == 0 && ghost(0, "dictWordsMatched") == 0 && ghost(0, "dictWordsSelected") == 0
+//@   site callret sfr.GetDeTlv #1:
+//@     ghostset ghost(0, "dictWords") = len(result)
+//@   site callret writer.ApplySearchToExpressionFilterSimpleCsg #1:
+//@     ghostset ghost(0, "dictWordsChecked") = ghost(0, "dictWordsChecked") + 1
+//@     ghostset ghost(0, "dictWordsMatched") = ghost(0, "dictWordsMatched") + ite(result0 && result1 == nil, 1, 0)
+//@   site call sfr.AddRecNumsToMr #1:
+//@     ghostset ghost(0, "dictWordsSelected") = ghost(0, "dictWordsSelected") + 1
+//@   loop 1:
+//@     invariant [one-evaluation-per-word] ghost(0, "dictWordsChecked") == rangeindex + 1 && ghost(0, "dictWordsSelected") == ghost(0, "dictWordsMatched") && ghost(0, "dictWords") >= 0 && rangeindex + 1 <= ghost(0, "dictWords")
+//@   ensures [every-dictionary-word-is-evaluated] implies(result1 == nil && qValDte != nil, ghost(0, "dictWordsChecked") == ghost(0, "dictWords"))
+//@   ensures [every-matching-word-is-selected] implies(result1 == nil, ghost(0, "dictWordsSelected") == ghost(0, "dictWordsMatched"))
+//@ end
